@@ -13,6 +13,13 @@ Added after the second and third seeding rounds:
   encode-inputs  the first encode of a run receives exactly the run's solvable; later ones only solvables read from the complete
                  decision stack (no skipping / truncating adaptor)
   hint-bits-grow-only / hint-bits-only-set-true  a hint once recorded is never lost (shared with C13, C20)
+
+Added after the fifth seeding round:
+  causality/calls:get_or_cache_*  who may enter the cache's fetching entry points: the encoder's queued futures, the cache itself
+                 (a derived list needs the package's candidates), the snapshot capture and Conflict::graph - never solve() / the
+                 decision loop (seed C09-13)
+  memoisation/table-written-only-by-its-fetch-function  by receiver *type*: every insert into a table of SolverCache sits in the
+                 fetch function that owns the table (seed C13-15: a drop guard storing a placeholder answer)
 """
 from common import *
 import q, mech
